@@ -122,47 +122,145 @@ def heavy_instances(rng, big):
     """(family, clauses, reference model, options, time guard)"""
     out = []
     g_main = rng.choice([1500, 1700, 2000])
-    out.append((f"blocks{g_main}x5", *inst_blocks(rng, g_main, 5), {}, 120))
-    out.append((f"blocks{g_main}x5-lf", *inst_blocks(rng, g_main, 5), {"luby_factor": rng.choice([30, 50, 200])}, 120))
+    if big:
+        out.append((f"blocks{g_main}x5", *inst_blocks(rng, g_main, 5), {}, 300))
+        out.append((f"blocks{g_main}x5-lf", *inst_blocks(rng, g_main, 5), {"luby_factor": rng.choice([30, 50, 200])}, 300))
+    else:
+        out.append((f"blocks{g_main}x5", *inst_blocks(rng, g_main, 5), rng.choice([{}, {}, {"luby_factor": 50}, {"luby_factor": 200}]), 300))
     for _ in range(3 if big else 1):
         g, k = rng.choice([(300, 5), (700, 4), (900, 6), (1200, 5)])
-        out.append((f"blocks{g}x{k}", *inst_blocks(rng, g, k), {"luby_factor": rng.choice([10, 100])}, 90))
+        out.append((f"blocks{g}x{k}", *inst_blocks(rng, g, k), {"luby_factor": rng.choice([10, 100])}, 300))
     for _ in range(4 if big else 2):
-        out.append(("guarded-php8_7", *inst_guarded_php(rng, 7), {"luby_factor": rng.choice([100, 100, 40, 300])}, 90))
+        out.append(("guarded-php8_7", *inst_guarded_php(rng, 7), {"luby_factor": rng.choice([100, 100, 40, 300])}, 300))
     if big:
-        out.append(("guarded-php7_6", *inst_guarded_php(rng, 6), {}, 60))
-    out.append(("sparse100000", *inst_sparse(rng, 100000), {}, 60))
-    out.append(("sparse5000", *inst_sparse(rng, rng.randint(3000, 7000)), {"solution_limit": 3}, 60))
+        out.append(("guarded-php7_6", *inst_guarded_php(rng, 6), {}, 300))
+    out.append(("sparse100000", *inst_sparse(rng, 100000), {}, 300))
+    out.append(("sparse2000", *inst_sparse(rng, rng.randint(1500, 2500)), {"solution_limit": 3}, 300))
     for n in (rng.randint(65, 80), rng.randint(1025, 1100), rng.randint(2049, 2200)) + ((rng.randint(257, 300), 4097) if big else ()):
-        out.append((f"chain{'>2048' if n > 2048 else '>1024' if n > 1024 else '>256' if n > 256 else '>64'}", *inst_chain(rng, n), {}, 60))
+        out.append((f"chain{'>2048' if n > 2048 else '>1024' if n > 1024 else '>256' if n > 256 else '>64'}", *inst_chain(rng, n), {}, 300))
     for n in (rng.randint(70, 120), rng.randint(250, 400)) + ((rng.randint(1030, 1200),) if big else ()):
-        out.append((f"planted-noisy{'>1024' if n > 1024 else '>256' if n > 256 else '>64'}", *inst_planted_noisy(rng, n, 3.0), {}, 60))
+        out.append((f"planted-noisy{'>1024' if n > 1024 else '>256' if n > 256 else '>64'}", *inst_planted_noisy(rng, n, 3.0), {}, 300))
     return out
 
 
+# ------------------------------------------------------------------------------------------- W: work volume (round 3)
+def shift_vars(cl, k):
+    return [[l + k if l > 0 else l - k for l in c] for c in cl]
+
+
+def inst_planted(rng, n, ratio):
+    planted = {v: rng.random() < 0.5 for v in range(1, n + 1)}
+    cl = []
+    while len(cl) < int(ratio * n):
+        c = [v if rng.random() < 0.5 else -v for v in rng.sample(range(1, n + 1), 3)]
+        if any(planted[abs(l)] == (l > 0) for l in c):
+            cl.append(c)
+    return cl, planted
+
+
+def work_instances(rng, big):
+    """Instances that push one internal counter of the solver across 2^10, 2^12, 5001, 8191, 10^4 at moderate input size:
+    number of recorded models / blocking clauses (full enumerations with a KNOWN model count), conflicts inside one restart
+    interval (huge luby_factor), learned clauses and reduce_db rounds, restarts (luby_factor 1).  Items are dicts:
+    fam, clauses, assumptions, opts, guard, and one of ref (a model, by construction) / count (number of models) / unsat."""
+    W = []
+    huge = lambda: rng.choice([10**6, 10**9, 2**40, 5001, 20000])  # noqa: E731
+    # -- enumerations: one clause over k variables has 2^k - 1 models; k independent 2-clauses have 3^k
+    k = 13
+    W.append(dict(fam="enum-clause13-all", clauses=[list(range(1, k + 1))], count=2**k - 1, guard=300,
+                  opts={"solution_limit": 10**6, "luby_factor": rng.choice([1, 2, 3])}))
+    W.append(dict(fam="enum-clause13-limit", clauses=[list(range(1, k + 1))], count=2**k - 1, guard=300,
+                  opts={"solution_limit": rng.choice([5001, 5002, rng.randint(5003, 8000)]), "luby_factor": rng.choice([1, 2])}))
+    kk = rng.choice([10, 11, 12])
+    W.append(dict(fam=f"enum-clause{kk}-asm", clauses=[list(range(1, kk + 2))], assumptions=[-rng.randint(1, kk + 1)], count=2**kk - 1, guard=300,
+                  opts={"solution_limit": rng.choice([10**6, 2**kk - 1, 2**kk]), "luby_factor": rng.choice([1, 2, 100])}))
+    p = 7
+    W.append(dict(fam=f"enum-pairs3^{p}", clauses=[[2 * i + 1, 2 * i + 2] for i in range(p)], count=3**p, guard=300,
+                  opts={"solution_limit": 10**6, "luby_factor": rng.choice([1, 2, 100])}))
+    if big:
+        W.append(dict(fam="enum-clause14-all", clauses=[list(range(1, 15))], count=2**14 - 1, guard=600, opts={"solution_limit": 10**6, "luby_factor": 2}))
+        W.append(dict(fam="enum-pairs3^8-limit", clauses=[[2 * i + 1, 2 * i + 2] for i in range(8)], count=3**8, guard=300,
+                      opts={"solution_limit": rng.randint(5001, 6561), "luby_factor": 1}))
+        blk, _ = planted_block(rng, 0, 5, 12)
+        cnt = sum(1 for bits in itertools.product([False, True], repeat=5) if all(any(bits[abs(l) - 1] == (l > 0) for l in c) for c in blk))
+        reps = 1
+        while cnt ** (reps + 1) <= 12000:
+            reps += 1
+        W.append(dict(fam="enum-blocks", clauses=[c for r in range(reps) for c in shift_vars(blk, 5 * r)], count=cnt**reps, guard=300,
+                      opts={"solution_limit": 10**6, "luby_factor": rng.choice([1, 3, 100])}))
+    # -- conflicts inside ONE restart interval (restarts practically off), satisfiable or unsatisfiable by construction
+    cl, ref = inst_guarded_php(rng, 7)
+    W.append(dict(fam="interval-guarded-php8_7", clauses=cl, ref=ref, guard=300, opts={"luby_factor": huge()}))
+    c1, r1 = inst_guarded_php(rng, 7)
+    c2, r2 = inst_guarded_php(rng, 7)
+    n1 = SC.n_vars_of(c1)
+    ref = dict(r1)
+    ref.update({v + n1: b for v, b in r2.items()})
+    W.append(dict(fam="interval-double-guarded-php", clauses=c1 + shift_vars(c2, n1), ref=ref, guard=300, opts={"luby_factor": rng.choice([10**6, 10**9, 2**40, 10001])}))
+    for _ in range(4 if big else 1):
+        n = rng.choice([250, 300])
+        cl, ref = inst_planted(rng, n, rng.choice([4.0, 4.1, 4.2]))
+        W.append(dict(fam=f"interval-planted{n}", clauses=cl, ref=ref, guard=300, opts={"luby_factor": huge(), "max_conflicts": 10**7}))
+    W.append(dict(fam="interval-php8_7", clauses=SC.pigeonhole(7), unsat=True, guard=300, opts={"luby_factor": huge()}))
+    # -- restarts >= 2^10 (luby_factor 1) and learned clauses >= 10^4 with many reduce_db rounds
+    cl, ref = inst_guarded_php(rng, 7)
+    W.append(dict(fam="restarts-guarded-php8_7", clauses=cl, ref=ref, guard=300, opts={"luby_factor": 1, "max_restarts": 10**6}))
+    c1, r1 = inst_guarded_php(rng, 7)
+    c2, r2 = inst_guarded_php(rng, 7)
+    n1 = SC.n_vars_of(c1)
+    ref = dict(r1)
+    ref.update({v + n1: b for v, b in r2.items()})
+    W.append(dict(fam="learned-double-guarded-php", clauses=c1 + shift_vars(c2, n1), ref=ref, guard=300, opts={"luby_factor": rng.choice([100, 30, 300])}))
+    return W
+
+
+def as_item(t):
+    fam, cl, ref, opts, guard = t
+    return dict(fam=fam, clauses=cl, ref=ref, opts=opts, guard=guard)
+
+
+def item_case(item):
+    return SC.mk(item["clauses"], item.get("assumptions", []), "heavy-" + item["fam"], timeout=item["guard"], **item["opts"])
+
+
 def run_heavy_one(item):
-    fam, cl, ref, opts, guard = item
-    case = SC.mk(cl, [], "heavy-" + fam, timeout=guard, **opts)
+    case = item_case(item)
+    cl = item["clauses"]
     snapshot = copy.deepcopy(cl)
-    out = SC.run_impl(case, guard, clauses_obj=cl)
+    out = SC.run_impl(case, item["guard"], clauses_obj=cl, assumptions_obj=list(item.get("assumptions", [])) or None)
     learns = sum(1 for e in out["trace"] if e[0] == "learn" and not e[2])
     out["learns"] = learns
+    out["blocking"] = sum(1 for e in out["trace"] if e[0] == "learn" and e[2])
+    # counters of the solver recomputed from the learn events: restarts and the longest run of conflicts without a restart
+    kw = case["kw"]
+    csr, idx, restarts, longest = 0, 1, 0, 0
+    nxt = kw["luby_factor"] * SC.py_luby(1)
+    for _ in range(learns):
+        csr += 1
+        longest = max(longest, csr)
+        if csr >= nxt and restarts < kw["max_restarts"]:
+            restarts += 1
+            idx += 1
+            nxt = kw["luby_factor"] * SC.py_luby(idx)
+            csr = 0
+    out["restarts"], out["longest_interval"] = restarts, longest
     out["trace"] = [e for e in out["trace"] if e[0] == "verdict"]  # keep the pickled result small
-    out["learns_for_budget"] = learns
     out["input_modified"] = cl != snapshot
     return out
 
 
-def judge_heavy(case, out, ref, pid):
-    """by construction: the reference assignment is a model, so INFEASIBLE is wrong; budgets are generous, so a model is due;
-    every returned assignment is evaluated against ALL clauses and must assign every variable 1..n_vars (what the unchanged
-    code guarantees: the dict has n_vars entries and objective = n_vars)."""
-    cl = case["clauses"]
+def judge_heavy(item, case, out, pid):
+    """by construction: `ref` is a model (INFEASIBLE is wrong, a model is due under generous budgets) / `count` is the exact number
+    of models (an enumeration returns min(limit, count) pairwise distinct models and ends OPTIMAL) / `unsat` (only INFEASIBLE or a
+    justified MAX_ITER).  Every returned assignment is evaluated against ALL clauses and assumptions and must assign every variable
+    1..n_vars (what the unchanged code guarantees).  A crash is a violation."""
+    cl, asm = case["clauses"], case["assumptions"]
     nv = SC.n_vars_of(cl)
+    models = SC.returned_models(out) if out["outcome"] == "ok" else []
     if pid == "C01":
         if out["outcome"] != "ok":
             return None
-        for m in SC.returned_models(out):
+        for m in models:
             missing = [v for v in range(1, nv + 1) if v not in m]
             bad = next((c for c in cl if not any(m.get(abs(l)) is (l > 0) for l in c)), None)
             if bad is not None:
@@ -170,67 +268,119 @@ def judge_heavy(case, out, ref, pid):
                         + (f"; unassigned e.g. {missing[:6]}" if missing else "") + ")")
             if missing:
                 return f"returned assignment is partial: {len(m)} of {nv} variables (unassigned e.g. {missing[:6]})"
+            if not all(m.get(abs(a)) is (a > 0) for a in asm):
+                return f"returned assignment disagrees with an assumption of {asm}"
         if out.get("solution") is not None and out["objective"] != len(out["solution"]):
             return f"objective {out['objective']} is not the number of assigned variables {len(out['solution'])}"
         sols = out.get("solutions")
-        if sols is not None and len({tuple(sorted(s.items())) for s in sols}) != len(sols):
-            return "solutions are not pairwise distinct"
+        if sols is not None:
+            distinct = len({tuple(sorted(s.items())) for s in sols})
+            if distinct != len(sols):
+                return (f"solutions are not pairwise distinct: {len(sols)} entries, {distinct} distinct"
+                        + (f" (the formula has {item['count']} models)" if item.get("count") else ""))
         return None
     if out["outcome"] == "hang":
-        return f"did not return within {case.get('timeout')} s"
+        return f"did not return within {item['guard']} s"
     if out["outcome"] == "exc":
         return f"raised {out['exc'][0]}: {out['exc'][1]}"
-    if out["status"] == "INFEASIBLE":
-        return "INFEASIBLE although the formula is satisfiable by construction (reference model evaluated against all clauses)"
-    if out["status"] not in ("OPTIMAL", "MAX_ITER"):
-        return f"status {out['status']}"
-    if not SC.returned_models(out):
-        if out["status"] == "OPTIMAL":
-            return "status OPTIMAL without a model"
-        if out["learns"] + 1 < case["kw"]["max_conflicts"] and case["kw"]["max_restarts"] >= 10_000 and out["learns"] < 50_000:
-            return f"MAX_ITER without a model after {out['learns']} analysed conflicts although a model exists and the budgets are far from exhausted"
+    st = out["status"]
+    if st not in ("OPTIMAL", "INFEASIBLE", "MAX_ITER"):
+        return f"status {st}"
+    far_from_budget = out["learns"] + 1 < case["kw"]["max_conflicts"] and out["restarts"] < case["kw"]["max_restarts"]
+    if item.get("unsat"):
+        if models:
+            return "reports a model for a formula that is unsatisfiable by construction"
+        if st == "MAX_ITER" and far_from_budget:
+            return f"MAX_ITER after {out['learns']} analysed conflicts although neither budget is met"
+        return None
+    if st == "INFEASIBLE":
+        return "INFEASIBLE although the formula is satisfiable by construction"
+    if st == "OPTIMAL" and not models:
+        return "status OPTIMAL without a model"
+    if st == "MAX_ITER" and far_from_budget:
+        return f"MAX_ITER after {out['learns']} analysed conflicts and {out['restarts']} restarts although neither budget is met"
+    if item.get("count") and st == "OPTIMAL":
+        want = min(max(case["kw"]["solution_limit"], 1), item["count"])
+        got = len(out["solutions"]) if out.get("solutions") is not None else len(models)
+        if got != want:
+            return f"enumeration returned {got} solutions, the formula has exactly {item['count']} models and solution_limit is {case['kw']['solution_limit']}"
     if out.get("input_modified"):
         return "modified the caller's clause lists"
     return None
 
 
 def start_heavy(ctx: Ctx, pid: str):
-    """generate the heavy instances and start solving them in a forked pool (overlaps with the small-case engine)"""
+    """generate the heavy (S) and work-volume (W) instances and start solving them in a forked pool, longest first
+    (overlaps with the small-case engine)"""
     import multiprocessing as mp
 
     big = ctx.tier == "thorough"
-    items = heavy_instances(ctx.rng, big)
-    for fam, cl, ref, _, _ in items:  # the construction itself is checked: the reference assignment is a model
-        if not all(any(ref.get(abs(l)) is (l > 0) for l in c) for c in cl):
-            ctx.internal_errors.append(f"generator bug: reference assignment of {fam} is not a model")
-    pool = mp.get_context("fork").Pool(min(6, len(items)))
+    items = [as_item(t) for t in heavy_instances(ctx.rng, big)] + work_instances(ctx.rng, big)
+    for it in items:  # the construction itself is checked: the reference assignment is a model
+        ref = it.get("ref")
+        if ref is not None and not all(any(ref.get(abs(l)) is (l > 0) for l in c) for c in it["clauses"]):
+            ctx.internal_errors.append(f"generator bug: reference assignment of {it['fam']} is not a model")
+    items.sort(key=lambda it: -(10**7 if it["fam"].startswith(("enum", "blocks1", "blocks2")) else len(it["clauses"])))
+    pool = mp.get_context("fork").Pool(min(8, len(items)))
     return items, pool, pool.map_async(run_heavy_one, items, chunksize=1)
 
 
 def finish_heavy(ctx: Ctx, pid: str, handle):
     items, pool, pending = handle
     try:
-        outs = pending.get(timeout=900)
+        outs = pending.get(timeout=1800)
     finally:
         pool.terminate()
-    for (fam, cl, ref, opts, guard), out in zip(items, outs):
-        case = SC.mk(cl, [], "heavy-" + fam, timeout=guard, **opts)
+    wmax = ctx.extra.setdefault("work_volume_max", {})
+
+    def bump(key, val):
+        wmax[key] = max(wmax.get(key, 0), val)
+
+    def bucket(x):
+        return "<2^10" if x < 1024 else "<2^12" if x < 4096 else "<=5000" if x <= 5000 else "<8191" if x < 8191 else "<10^4" if x < 10**4 else ">=10^4"
+
+    for it, out in zip(items, outs):
+        fam, cl, opts = it["fam"], it["clauses"], it["opts"]
+        case = item_case(it)
+        nv = SC.n_vars_of(cl)
         ctx.evaluations += 1
-        ctx.count("heavy_family", fam)
+        ctx.count("heavy_family", re_digits(fam))
         ctx.count("heavy_outcome", out["outcome"] if out["outcome"] != "ok" else out["status"])
-        ctx.count("heavy_learned", "<500" if out["learns"] < 500 else "500-1999" if out["learns"] < 2000 else "2000-4999" if out["learns"] < 5000 else ">=5000")
-        ctx.count("heavy_n_vars", "<=64" if SC.n_vars_of(cl) <= 64 else "<=1024" if SC.n_vars_of(cl) <= 1024 else "<=10000" if SC.n_vars_of(cl) <= 10000 else ">10000")
+        ctx.count("heavy_n_vars", "<=64" if nv <= 64 else "<=1024" if nv <= 1024 else "<=10000" if nv <= 10000 else ">10000")
         ctx.count("trace_replay", "skipped-heavy(judged by construction)")
+        ctx.count("work_learned_clauses", bucket(out["learns"]))
+        ctx.count("work_models_recorded", bucket(len(out.get("solutions") or [])))
+        ctx.count("work_longest_restart_interval", bucket(out["longest_interval"]))
+        ctx.count("work_restarts", "<2^7" if out["restarts"] < 128 else "<2^10" if out["restarts"] < 1024 else ">=2^10")
+        bump("analysed_conflicts", out["learns"])
+        bump("blocking_clauses", out["blocking"])
+        bump("models_recorded", len(out.get("solutions") or []))
+        bump("conflicts_in_one_restart_interval", out["longest_interval"])
+        bump("restarts", out["restarts"])
+        bump("propagations", out.get("propagations") or 0)
+        bump("decisions", out.get("decisions") or 0)
+        bump("variables", nv)
+        bump("clauses", len(cl))
         ctx.extra["heavy_slowest_s"] = max(ctx.extra.get("heavy_slowest_s", 0), out["time"])
         if out["learns"] >= 1:
             ctx.nontriv(("heavy", fam, len(cl), tuple(sorted(opts.items())), out["learns"]))
-        bad = judge_heavy(case, out, ref, pid)
+        bad = judge_heavy(it, case, out, pid)
         if bad:
-            ctx.violation(f"solve_sat on heavy instance {fam} ({SC.n_vars_of(cl)} variables, {len(cl)} clauses, options {opts}, "
-                          f"{out['learns']} analysed conflicts): {bad}",
-                          {"family": "heavy-" + fam, "clauses": cl, "assumptions": [], "kw": case["kw"], "timeout": guard,
-                           "reference_model_true_vars": [v for v, b in ref.items() if b][:2000],
-                           "observed": {k: out.get(k) for k in ("outcome", "status", "exc", "time", "learns", "objective")}})
+            big_input = len(cl) > 3000
+            ctx.violation(f"solve_sat on {fam} ({nv} variables, {len(cl)} clauses, assumptions {case['assumptions']}, options {opts}; "
+                          f"{out['learns']} analysed conflicts, {out['restarts']} restarts, longest restart interval {out['longest_interval']}, "
+                          f"{out['blocking']} blocking clauses): {bad}",
+                          {"family": "heavy-" + fam, "clauses": cl, "assumptions": case["assumptions"], "kw": case["kw"], "timeout": it["guard"],
+                           "by_construction": {k: it[k] for k in ("count", "unsat") if k in it},
+                           "reference_model_true_vars": ([v for v, b in it["ref"].items() if b][:2000] if it.get("ref") else None),
+                           "observed": {k: out.get(k) for k in ("outcome", "status", "exc", "time", "learns", "restarts", "objective")},
+                           "note": "large input, stored in full" if big_input else ""})
+
+
+def re_digits(fam):
+    import re
+
+    return re.sub(r"\d{3,}", "N", fam)
 
 
 # ------------------------------------------------------------------------------------------- A: call sequences
@@ -268,6 +418,29 @@ def run_sequences(ctx: Ctx, pid: str):
             bad = "result depends on the order of two calls sharing one input object"
         elif X != snap or XA != snap_a:
             bad = f"modified the caller's input: clauses {snap} became {X}" if X != snap else "modified the caller's assumption list"
+        if not bad:
+            # A2: mutate the caller's clause lists IN PLACE between two calls; the second answer must be the one a fresh call gives
+            r = rng.random()
+            i = rng.randrange(len(X))
+            if r < 0.35 and X[i]:
+                X[i][rng.randrange(len(X[i]))] *= -1
+            elif r < 0.6:
+                nv = SC.n_vars_of(X)
+                X.append([rng.randint(1, nv) * rng.choice([1, -1]) for _ in range(rng.randint(1, 3))])
+            elif r < 0.8 and len(X) > 1:
+                X.pop(i)
+            else:
+                X[i] = [l for l in X[rng.randrange(len(X))]]
+            ok_asm = [a for a in XA if abs(a) <= SC.n_vars_of(X)]
+            if SC.n_vars_of(X) > 0 and all(len(c) > 0 for c in X):
+                cm = dict(case, clauses=[list(c) for c in X], assumptions=ok_asm, kw=o1)
+                again = SC.run_impl(cm, clauses_obj=X, assumptions_obj=list(ok_asm))
+                fresh = SC.run_impl(cm, clauses_obj=copy.deepcopy(X), assumptions_obj=list(ok_asm))
+                ctx.evaluations += 2
+                ctx.count("call_sequences", "in-place-edit")
+                if canon_out(again) != canon_out(fresh):
+                    bad = (f"after an in-place edit of the caller's clause lists the second call answers {canon_out(again)[:3]}, "
+                           f"a fresh call on a copy answers {canon_out(fresh)[:3]} (edited clauses: {X})")
         if bad and (pid == "C02" or "modified" not in bad):
             ctx.violation("solve_sat " + bad, {"clauses": case["clauses"], "assumptions": case["assumptions"], "kw": o1, "kw_second_call": o2,
                                                "sequence": "call(X,kw); call(X,kw_second_call); call(X,kw)  vs  fresh Y: call(Y,kw_second_call); call(Y,kw)"})
